@@ -103,6 +103,32 @@ def scenarios():
                 h += [[S("probe"), Q(S("result")), use], [S("probe"), Q(S("x-after")), S("x")], [S("set"), Q(S("y")), 5],
                       guard([S("probe"), Q(S("y-in-app")), S("%s:y" % app)]), guard([S("probe"), Q(S("y-in-lib")), S("%s:y" % lib)])]
                 out.append(h)
+    # the language package itself changes while packages are being created: a new package starts with the language
+    # package's exports AS THEY ARE when it is created (a package created earlier keeps what it imported then)
+    for first_before in (False, True):
+        for what in ("new-export", "redefine-exported", "set-unexported", "export-later"):
+            h = []
+            if first_before:
+                h += [[S("in-package"), Q(S("p1"))], [S("in-package"), Q(S("user"))]]
+            h.append([S("in-package"), Q(S("lisp"))])
+            if what == "new-export":
+                h += [[S("defun"), S("lang-helper"), [], Q(S("from-lang"))], [S("set"), Q(S("shared-const")), 1], [S("export"), Q(S("lang-helper")), Q(S("shared-const"))]]
+            elif what == "redefine-exported":
+                h += [[S("defun"), S("identity"), [S("v")], [S("list"), Q(S("redefined")), S("v")]]]
+            elif what == "set-unexported":
+                h += [[S("set"), Q(S("shared-const")), 1]]
+            else:
+                h += [[S("set"), Q(S("shared-const")), 1], [S("in-package"), Q(S("p2"))], [S("in-package"), Q(S("lisp"))], [S("export"), Q(S("shared-const"))]]
+            refs = [guard([S("probe"), Q(S("helper")), [S("lang-helper")]]), guard([S("probe"), Q(S("const")), S("shared-const")]), guard([S("probe"), Q(S("identity")), [S("identity"), 5]])]
+            h += [[S("in-package"), Q(S("second"))]] + refs
+            h += [[S("in-package"), Q(S("lisp"))], [S("set"), Q(S("shared-const")), 2], [S("in-package"), Q(S("third"))]] + refs
+            h += [[S("in-package"), Q(S("second"))]] + refs[1:2]
+            if first_before:
+                h += [[S("in-package"), Q(S("p1"))]] + refs
+            if what == "export-later":
+                h += [[S("in-package"), Q(S("p2"))]] + refs[1:2]
+            h += [[S("in-package"), Q(S("user"))]] + refs
+            out.append(h)
     return out
 
 
